@@ -36,7 +36,7 @@ where
 
 /-- parse a whole line as a sequence of top-level s-expressions -/
 partial def parseLine (s : String) : Except String (List Sexp) :=
-  go s.toList []
+  go (s.toList.filter (fun c => c != '\n' && c != '\r')) []
 where
   go : List Char → List Sexp → Except String (List Sexp)
     | [], acc => pure acc.reverse
